@@ -62,7 +62,8 @@ for cls, fn, acc, tag, slot in (('ProbabilisticNode', 'SumS', 'value', P_PROB, '
 contract('Node.value_iteration_reach', virtual=True, implementations=['ProbabilisticNode', 'PlayerOne', 'PlayerTwo'],
          params={'self': NODE, 'state_list': SLT}, result=REAL,
          requires=[SUCC_IN_RANGE, "0 <= cls(self) and cls(self) <= 2"],
-         ensures=[f"result == BR(cls(self), {NS_}, state_list, RP)"], modifies={})
+         ensures=[f"result == BR(cls(self), {NS_}, state_list, RP)"], modifies={},
+         props=['C01', 'C02', 'C04', 'C06', 'C13', 'C14'])
 
 # ------------------------------------------------------------------ strategy lists (C04, C05)
 RP01 = "forall(t, 0, len(state_list), 0 <= RP[state_list[t]] and RP[state_list[t]] <= 1)"
